@@ -45,8 +45,8 @@ type propCfg struct {
 
 var props = map[string]propCfg{
 	"C03": {Engine: "chain",
-		Quick:    []phase{{"chain", false, 25 * time.Second, false}, {"chain", true, 15 * time.Second, false}},
-		Thorough: []phase{{"chain", false, 10 * time.Minute, false}, {"chain", true, 3 * time.Minute, false}}},
+		Quick:    []phase{{"chain", false, 25 * time.Second, false}, {"chain", true, 15 * time.Second, false}, {"chain", false, 8 * time.Second, true}},
+		Thorough: []phase{{"chain", false, 9 * time.Minute, false}, {"chain", true, 3 * time.Minute, false}, {"chain", false, 2 * time.Minute, true}}},
 	"C13": {Engine: "rw",
 		Quick:    []phase{{"rw", false, 15 * time.Second, false}, {"rw", true, 12 * time.Second, false}, {"rw", false, 8 * time.Second, true}, {"rw", true, 8 * time.Second, true}},
 		Thorough: []phase{{"rw", false, 5 * time.Minute, false}, {"rw", true, 3 * time.Minute, false}, {"rw", false, 2 * time.Minute, true}, {"rw", true, 2 * time.Minute, true}}},
